@@ -355,6 +355,57 @@ def _second_transfer(N, S, R, start, length, rng):
         rig.close()
 
 
+def _repeat_transfer(variant, N, S, R, start, length, rng):
+    """a history of two fault-free transfers of the SAME range on one structure, the spa's bytes unchanged, with the
+    client's copy of the range changed in between by something that is not a transfer (a partial update that the spa
+    took back without reporting, the application re-initialising the structure).  -> the log of the second transfer
+    (re-based on what the client held when it started), or None"""
+    # (no zero bytes in the spa's block: a re-initialised client copy then differs from it everywhere)
+    spa = bytes(rng.randrange(1, 256) for _ in range(N))
+    old = bytes((b + 1 + rng.randrange(254)) % 256 or (b % 255) + 1 for b in spa)
+    old = bytes(o if o != b else (b % 255) + 1 for o, b in zip(old, spa))
+    rig = RIGS[variant](N, S, R, start, length, spa, old)
+
+    def drive():
+        guard = 0
+        while not rig.done() and guard < 400:
+            guard += 1
+            rig.collect()
+            us = [d for d in rig.bag if d["m"]["t"] == "U"]
+            vs = sorted([d for d in rig.bag if d["m"]["t"] != "U"], key=lambda x: x["m"].get("idx", 0))
+            if us:
+                rig.serve()
+            elif vs:
+                rig.deliver(vs[0]["m"])
+            else:
+                rig.timeout()
+        rig.collect()
+    try:
+        drive()
+        if not rig.ok() or rig.block()[start:start + length] != spa[start:start + length]:
+            return None           # (a first transfer that fails fault-free is reported by the ordinary scenarios)
+        how = rng.choice(["patch", "reinit", "reset"])
+        st = rig.struct
+        if how == "patch":
+            for _ in range(rng.choice([1, 3])):
+                p_ = rng.randrange(start, start + length)
+                st.replace_status_block_segment(p_, bytes([(spa[p_] + 1 + rng.randrange(255)) % 256]))
+        elif how == "reinit" or not hasattr(st, "reset"):
+            st.set_status_block(old)
+        else:
+            st.reset()
+        now = bytes(st.status_block)
+        if len(now) != N or now[start:start + length] == spa[start:start + length]:
+            return None
+        rig.old_block = now
+        rig.restart(start, length, after_success=True)
+        drive()
+        return {"req": {"start": start, "len": length}, "ev": rig.log, "variant": variant, "faults": 0,
+                "ok": bool(rig.ok()), "sent": rig.sent, "after_successful_transfer": how}
+    finally:
+        rig.close()
+
+
 def overlap_witness(rng):
     """OverlapRefresh.tla's counterexample on the real blocking structure and socket: two refresh requests
     (different ranges) in flight at once, the first segment of A's answer, then the final segment of B's.
@@ -516,6 +567,21 @@ def run(ctx):
             if not lg["ok"]:
                 ctx.violation({"clause": "fault-free-success", "variant": "sync", "after_failed_transfer": True},
                               {"start": lg["req"]["start"], "len": lg["req"]["len"]})
+    # ... and a fault-free transfer that follows a SUCCESSFUL one of the same range, the client's copy changed in between
+    n_rep = 0
+    for i in range(12 if quick else 120):
+        length = rng.choice([39, 80, 117, 200])
+        variant = ("async", "sync")[i % 2]
+        lg = _repeat_transfer(variant, N, S, 2, rng.randrange(0, N - length), length, rng)
+        if lg is not None:
+            n_rep += 1
+            lg["R"] = 2
+            lg["faultfree"] = True
+            logs.append(lg)
+            if not lg["ok"]:
+                ctx.violation({"clause": "fault-free-success", "variant": variant, "after_successful_transfer": True},
+                              {"start": lg["req"]["start"], "len": lg["req"]["len"], "how": lg["after_successful_transfer"]})
+    ev.cov["repeated_transfer_histories"] = n_rep
     for lg in logs:
         if lg.get("never_ends"):
             ctx.violation({"clause": "transfer-neither-succeeds-nor-fails", "variant": lg["variant"]},
@@ -544,6 +610,8 @@ def run(ctx):
                      "event": evs[k]["k"] if k < len(evs) else "end"},
                     {"req": lg["req"], "R": r_, "matched": k, "of": len(evs),
                      "next_events": evs[max(0, k - 3): k + 3], "ok": lg["ok"], "sent": lg["sent"]})
+    if not n_rep and not ctx.new:
+        raise env.MachineryError("C01: no repeated-transfer history could be run")
     ev.cov["traces_validated_against_impl"] += nacc
     ev.cov["evaluations"] += len(logs) + total_steps
     ev.cov["distinct_nontrivial"] = len(nontrivial) + sum(ev.cov.get(f"walks_replayed_{v}", 0) for v in ("async", "sync"))
